@@ -314,6 +314,31 @@ Corollary gate_zero_optimal g s :
   gate_consistent g s = true -> gate_zero g s = true -> optimal (g_lp g) (s_primal s).
 Proof. intros H1 H2. eapply opt_cert_sound, gate_zero_is_optimal; eauto. Qed.
 
+(* ---------- the hypothesis "range types match the bounds" is needed ----------
+   With a stale (mirrored) row type the four violations are zero on a point that violates the row: this is the state the
+   history family of checks/C03.py looks for after every solve (_rowTypes / _colTypes against the types of the LP held). *)
+(* min x  s.t.  1/3 x >= 1/7,  x >= 0;  the row type is mirrored (UPPER instead of LOWER) *)
+Definition stale_lp : lp :=
+  {| maximize := false; offset := 0;
+     cols := [ {| c_obj := 1; c_lo := Some 0; c_up := None |} ];
+     rows := [ {| r_lhs := Some (1 # 7); r_coef := [1 # 3]; r_rhs := None |} ] |}.
+Definition stale_gate : gate :=
+  {| g_lp := stale_lp; g_infty := 10 ^ 100; g_ctypes := [RT_LOWER]; g_rtypes := [RT_UPPER];
+     g_cstat := [ON_LOWER]; g_rstat := [BASIC] |}.
+Definition stale_sol : rsol := {| s_primal := [0]; s_slacks := [0]; s_dual := [0]; s_redcost := [1] |}.
+
+Lemma gate_needs_matching_types :
+  exists g s,
+    gate_zero g s = true /\
+    forall_lt (ncols (g_lp g)) (col_status_ok g (s_primal s)) = true /\
+    forall_lt (nrows (g_lp g)) (row_status_ok g) = true /\
+    forall_lt (nrows (g_lp g)) (fun i => Qeq_bool (vnth (s_slacks s) i) (activity (g_lp g) i (s_primal s))) = true /\
+    forall_lt (ncols (g_lp g)) (fun j => Qeq_bool (vnth (s_redcost s) j) (redcost (g_lp g) (s_dual s) j)) = true /\
+    types_match g = false /\
+    feasible_b (g_lp g) (s_primal s) = false /\
+    check_opt_exact (g_lp g) (s_primal s) (s_dual s) = false.
+Proof. exists stale_gate, stale_sol. repeat split; vm_compute; reflexivity. Qed.
+
 (* ---------- (c) the objective value ---------- *)
 Lemma dot_map_opp u v : dot u (map Qopp v) == - dot u v.
 Proof.
